@@ -19,7 +19,8 @@
   type property triggers conversion                         type_setter_dispatch
   the converted model survives a file round trip            converted_sections_ordered, section_ops_keep_order,
                                                               to_tough2_history_roundtrip_partial (*); bytes: oracle on the real write()/read()
-  every non-boundary block in exactly one rock cell list    rock_cells_partition, rock_cells_own_type_exists, boundary_blocks_complement
+  every non-boundary block in exactly one rock cell list    rock_cells_partition, rock_cells_own_type_exists, boundary_blocks_complement,
+                                                              boundary_faces_partition
   every source has the cell index of its block;             sources_spec, source_cell_is_block_index
     one source per non-group generator
   EOS from the EOS entry or the simulator string            eos_explicit, eos_from_multi, eos_from_simulator, eos_detected_from_simulator
@@ -712,6 +713,51 @@ theorem boundary_blocks_complement (blocks : List WBlock) (atmos : Rat) (b : WBl
     unfold boundaryBlocks
     exact List.mem_map.mpr ⟨b, List.mem_filter.mpr ⟨hb, by simpa using h⟩, rfl⟩
 
+/-- Boundary faces: when the faces loops of `boundaries_json` return, the boundary entries are — in the order
+    of `grid.blocklist` — exactly the boundary blocks (volume ≤ 0 or ≥ `atmos_volume`) that have at least
+    one non-boundary neighbour, each with the cell indices of its non-boundary neighbours, one per connection
+    (`nbCells`, characterised by the last clause); a boundary block without such a neighbour yields no entry
+    (the d9f6fbf repair), and a non-boundary block never does. -/
+theorem boundary_faces_partition (geoNames : List Str) (nAtm : Nat) (blocks : List WBlock) (atmos : Rat)
+    (conns : List (Str × Str)) (faces : List (Str × List Int))
+    (h : boundaryFaces geoNames nAtm blocks atmos conns = .ok faces) :
+    faces = blocks.filterMap (bdyEntry geoNames nAtm blocks atmos conns) ∧
+    (∀ b ∈ blocks, interior atmos b = false → nbCells geoNames nAtm blocks atmos conns b.name ≠ [] →
+        (b.name, nbCells geoNames nAtm blocks atmos conns b.name) ∈ faces) ∧
+    (∀ e ∈ faces, ∃ b ∈ blocks, interior atmos b = false ∧ e = (b.name, nbCells geoNames nAtm blocks atmos conns b.name) ∧
+        e.2 ≠ []) ∧
+    (∀ b x, x ∈ nbCells geoNames nAtm blocks atmos conns b ↔
+      ∃ c ∈ conns, (c.1 = b ∨ c.2 = b) ∧ ∃ w i, findBlock blocks (otherEnd c b) = some w ∧ interior atmos w = true ∧
+        lastIdx geoNames (otherEnd c b) = some i ∧ x = (i : Int) - nAtm) := by
+  have hf : faces = blocks.filterMap (bdyEntry geoNames nAtm blocks atmos conns) := boundaryFacesLoop_eq _ _ _ _ _ _ _ h
+  refine ⟨hf, ?_, ?_, fun b x => mem_nbCells geoNames nAtm blocks atmos conns b x⟩
+  · intro b hb hi hne
+    rw [hf, List.mem_filterMap]
+    refine ⟨b, hb, ?_⟩
+    have hi' : ¬ interior atmos b = true := by simp [hi]
+    rw [bdyEntry_boundary _ _ _ _ _ _ hi']
+    have : (nbCells geoNames nAtm blocks atmos conns b.name).isEmpty = false := by
+      cases hh : nbCells geoNames nAtm blocks atmos conns b.name with
+      | nil => exact absurd hh hne
+      | cons _ _ => rfl
+    simp [this]
+  · intro e he
+    rw [hf, List.mem_filterMap] at he
+    obtain ⟨b, hb, hbe⟩ := he
+    by_cases hi : interior atmos b = true
+    · rw [bdyEntry_interior _ _ _ _ _ _ hi] at hbe; cases hbe
+    · rw [bdyEntry_boundary _ _ _ _ _ _ hi] at hbe
+      have hi' : interior atmos b = false := by simpa using hi
+      by_cases hem : (nbCells geoNames nAtm blocks atmos conns b.name).isEmpty = true
+      · rw [if_pos hem] at hbe; cases hbe
+      · rw [if_neg hem] at hbe
+        cases hbe
+        refine ⟨b, hb, hi', rfl, ?_⟩
+        intro h0
+        simp only at h0
+        rw [h0] at hem
+        exact hem rfl
+
 /-- Sources: when `generators_json` returns, `source` has exactly one entry per generator whose
     type is not the group type (TMAK), in order, and the entry's `cell` is `cellOf` of the
     generator's block; no generator has an unsupported type. -/
@@ -929,6 +975,12 @@ example : rockCells ["rock0".toList, "rock1".toList] sampleGeo 1 sampleBlocks 10
 example : sampleGeo.Nodup ∧ findBlock sampleBlocks sampleGeo[2] = some sampleBlocks[2] := by decide
 example : boundaryBlocks sampleBlocks 10000000000000000000000000 = ["ATM 0".toList, "  a 2".toList, "  b 2".toList] := by
   decide +kernel
+-- boundary faces of the sample: the atmosphere block faces cells 0 and 1; '  a 2' (volume 0) faces cell 0;
+-- '  b 2' (huge volume) faces cell 1; a boundary block that only touches boundary blocks would yield nothing
+example : boundaryFaces sampleGeo 1 sampleBlocks 10000000000000000000000000
+    [("ATM 0".toList, "  a 1".toList), ("ATM 0".toList, "  b 1".toList), ("  a 1".toList, "  b 1".toList),
+     ("  a 1".toList, "  a 2".toList), ("  b 1".toList, "  b 2".toList), ("  a 2".toList, "  b 2".toList)]
+    = .ok [("ATM 0".toList, [0, 1]), ("  a 2".toList, [0]), ("  b 2".toList, [1])] := by decide +kernel
 example : sources sampleGeo 1
     [{ id := 1, block := "  b 1".toList, name := "wel 1".toList, type := "MASS".toList, payload := 0 },
      { id := 2, block := "ATM 0".toList, name := "wel 1".toList, type := "DELG".toList, payload := 0 },
